@@ -59,11 +59,11 @@ Proof.
   destruct (list_eqb _ _); [|reflexivity].
   destruct (list_eqb _ _); [|reflexivity].
   apply fam_bind.
-  - destruct (_ =? _)%nat; [reflexivity|].
-    destruct (_ =? _)%nat; [|reflexivity].
-    destruct payid as [p|]; [|reflexivity].
-    destruct (_ =? _)%nat; [|reflexivity].
-    destruct (list_eqb _ _); reflexivity.
+  - destruct payid as [p|].
+    + destruct (_ =? _)%nat; [|reflexivity].
+      destruct (_ =? _)%nat; [|reflexivity].
+      destruct (list_eqb _ _); reflexivity.
+    + destruct (_ =? _)%nat; reflexivity.
   - intros _ _. destruct (pub_is_valid _ _ _); [|reflexivity]. destruct (pub_is_valid _ _ _); reflexivity.
 Qed.
 
